@@ -50,7 +50,10 @@ VAR_Q = ('objective', 'get', 'call', 'slice.call', 'slice.get')
 AFF_EXPRS = ('x+1', '2*x-c', 'x.sum()', 'x.sum(0)', 'x.sum(1)+y[:2]', 'x.T', 'x@M32', 'M22@x', 'x[0]+y', '-y', 'y*c3',
              'x.reshape(3,2)', 's+1', 's*c3+y', 'x[1,2]', 'concat(y,x[0])', 'y@c3', 'trace(x[:,:2])', 'c23*x', '(x+1)[0]',
              'x-x', 'y[::-1]-y', '(x@M32).T+s', 'x[0]@M32', 'y+s', 's', 'y', 'x', 'x[:,1]', 'y.to_affine()',
-             '0*y+2')
+             '0*y+2',
+             # stacked expressions in both item orders (s is static, y/x event-wise in the dro3 front end)
+             'vec(s,y[0])', 'vec(y[0],s)', 'vec(1.5,y[1])', 'concat(c3,y)', 'concat(y,c3)', 'concat(s1,y)', 'concat(y,s1)',
+             'rstack(s2,x[:1])', 'rstack(x[:1],s2)', 'cstack(s2.T,x[:,:1])', 'cstack(x[:,:1],s2.T)')
 CVX_FES = ('ro', 'dro1', 'dro3:xe', 'dro3:ye', 'dro3:xye')
 CHAIN_K_FULL = [('f', 1.0)] + [(c, k) for c in At.CHAINS if c != 'f' for k in At.KS]
 CHAIN_K_FULL_Q = [('f', 1.0)] + [(c, k) for c in At.CHAINS if c != 'f' for k in (2.0, -1.0, -0.5)]
@@ -61,8 +64,11 @@ BI_EXPRS = ('x*z', 'z*x', 'x@z', 'bilin', '(x*z).sum()', 'x[0]*z', 'x*w', 'x*z+y
 BI_ASSIGN = ('none', 'z', 'w', 'zw', 'wz', 'sw:z', 'sw:zw', 'sw:series')
 LDR_Q = ('get', 'coef', 'coef.slice', 'call', 'subcall', 'affcall', 'raw')
 LDR_SPECS_Q = [('z3', 2), ('z2w', 2), ('z2', 1), ('z2', 2)]
-EVT_Q = ('objective', 'get', 'call', 'slice.call', 'aff.call', 'cvx.call', 'mix.call', 'mixcvx.call', 'biaff.call', 'sub.get')
+EVT_Q = ('objective', 'get', 'call', 'slice.call', 'aff.call', 'cvx.call', 'mix.call', 'mixcvx.call', 'biaff.call', 'sub.get',
+         'stack.call')
 DAD_Q = ('get', 'coef', 'coef.slice', 'call', 'call.partial', 'call.sw', 'aff.call', 'biaff.call')
+ALIAS_FES = ('ro', 'lp', 'gcp', 'dro1', 'dro3', 'roldr')
+ALIAS_Q = ('x.get()', 'y.get()', 's.get()', 'x()', 'y()', '(2*x-c)()', 'x[0]()', 'abs(y)()', 'coef', 'model.get()')
 DAD_MASKS_Q = [[[1, 1], [1, 1]], [[1, 0], [0, 1]], [[0, 1], [1, 0]], [[1, 1], [0, 0]], [[0, 0], [0, 1]], [[1, 0], [1, 1]]]
 
 
@@ -136,6 +142,14 @@ def _gen_all(tier, seed):
                         for when in (('pre', 'post') if (chain, k) in (CHAIN_K_RED if th else CHAIN_K_RED[:3]) else ('pre',)):
                             yield {'fam': 'cvx', 'fe': fe, 'atom': atom, 'sh': sh, 'inner': inner, 'chain': chain, 'k': k,
                                    'when': when, 'pal': pal}
+    # ---- alias: in-place mutation of a returned array must not change any later query
+    for fe in ALIAS_FES:
+        for solver in ('default', 'eco'):
+            for q1 in ALIAS_Q:
+                if q1 == 'coef' and fe != 'roldr':
+                    continue
+                for pl in pals:
+                    yield {'fam': 'alias', 'fe': fe, 'solver': solver, 'q1': q1, 'pal': pl}
     # ---- biaff
     for fe in ('ro', 'dro1', 'dro3'):
         for ex in BI_EXPRS:
@@ -419,6 +433,18 @@ class _NpLib:
     def trace(a):
         return np.trace(a)
 
+    @staticmethod
+    def vec(*items):
+        return np.array([float(np.asarray(i, dtype=float)) for i in items])
+
+    @staticmethod
+    def rstack(*items):          # 2-D operands only
+        return np.vstack([np.asarray(i, dtype=float) for i in items])
+
+    @staticmethod
+    def cstack(*items):          # 2-D operands only
+        return np.hstack([np.asarray(i, dtype=float) for i in items])
+
 
 def _aff_expr(name, x, y, s, L, is_np):
     if name == 'x+1':
@@ -483,6 +509,30 @@ def _aff_expr(name, x, y, s, L, is_np):
         return y if is_np else y.to_affine()
     if name == '0*y+2':
         return 0 * y + 2
+    if name == 'vec(s,y[0])':
+        return L.vec(s, y[0])
+    if name == 'vec(y[0],s)':
+        return L.vec(y[0], s)
+    if name == 'vec(1.5,y[1])':
+        return L.vec(1.5, y[1])
+    if name == 'concat(c3,y)':
+        return L.concat((C3, y))
+    if name == 'concat(y,c3)':
+        return L.concat((y, C3))
+    s1 = (s * np.ones(2)) if is_np else (s * np.ones(2))        # a static 1-D expression
+    if name == 'concat(s1,y)':
+        return L.concat((s1, y))
+    if name == 'concat(y,s1)':
+        return L.concat((y, s1))
+    s2 = (s * np.ones((1, 2)) + np.array([[0.0, 1.0]]))          # a static 1x2 expression
+    if name == 'rstack(s2,x[:1])':
+        return L.rstack(s2, x[:1, :2])
+    if name == 'rstack(x[:1],s2)':
+        return L.rstack(x[:1, :2], s2)
+    if name == 'cstack(s2.T,x[:,:1])':
+        return L.cstack(s2.T, x[:, :1])
+    if name == 'cstack(x[:,:1],s2.T)':
+        return L.cstack(x[:, :1], s2.T)
     raise KeyError(name)
 
 
@@ -672,6 +722,130 @@ def _run_cvx(case):
         return classify(obs)
     T.item('%s of %s' % (chain, atom), lambda: e(), exps, labels=env.labels, cls=item_cls)
     return T.result('cvx[%s,%s]' % (fek.split('(')[0], atom))
+
+
+# ---------------------------------------------------------------- alias
+def _arrays_of(v):
+    """The ndarray objects inside a query result (a Series holds one per scenario)."""
+    pd = _rs['pd']
+    if isinstance(v, pd.Series):
+        return [a for a in v if isinstance(a, np.ndarray)]
+    return [v] if isinstance(v, np.ndarray) else []
+
+
+def _snapshot(v):
+    pd = _rs['pd']
+    if isinstance(v, pd.Series):
+        return [np.array(a, dtype=float, copy=True) for a in v]
+    return np.array(v, dtype=float, copy=True)
+
+
+def _same(a, b):
+    if isinstance(a, list):
+        return len(a) == len(b) and all(_same(x, y) for x, y in zip(a, b))
+    return a.shape == b.shape and np.array_equal(a, b, equal_nan=True)
+
+
+def _run_alias(case):
+    """History: solve; run every query; mutate the array returned by query q1 in place; run every query again."""
+    Bd = _rs['B']
+    rso = _rs['rso']
+    fe, q1, solver = case['fe'], case['q1'], case['solver']
+    tag = 'alias|%s|%s' % ('dro' if fe.startswith('dro') else fe, q1)
+    sol_mod = None
+    if solver == 'eco':
+        sol_mod = _rs.get('eco')
+        if sol_mod is None:
+            return {'status': 'vacuous', 'outcome': 'alias:ecos interface unavailable', 'ops': 0}
+    ops = Bd.Ops()
+    queries = {}
+    if fe == 'roldr':
+        m = _rs['ro'].Model()
+        z = m.rvar(2)
+        x = m.dvar((2, 3))
+        y = m.ldr(3)
+        s_ = m.dvar()
+        y[0].adapt(z)
+        y[2].adapt(z[1])
+        V = Bd.pinned_values((2, 3), 0, case['pal'], False)
+        a = np.array([0.5, -1.5, 2.25])
+        Bm = np.array([[1.0, 2.0], [0.0, 0.0], [0.0, 4.0]])
+        m.minmax(s_, z >= -1, z <= 1)
+        m.st(x == V, y == a + Bm @ z, s_ >= 1.75)
+        ops(10)
+        closed = {'x.get()': V, 'y.get()': a, 's.get()': 1.75, 'model.get()': 1.75,
+                  'coef': np.where(Bm != 0, Bm, np.nan)}
+        queries['coef'] = lambda: y.get(z)
+        model = m
+        raw_model = m
+    else:
+        env = Bd.Env(fe, _std_specs(fe), case['pal'], 'eq', 'min', lab='str' if fe == 'dro3' else 'int', positive=False)
+        model = env.m
+        x, y, s_ = env.vars['x'], env.vars['y'], env.vars['s']
+        ops = env.ops
+        closed = None
+    try:
+        if sol_mod is None:
+            model.solve(display=False)
+        else:
+            model.solve(sol_mod, display=False)
+        ops()
+    except Exception as exn:  # noqa
+        return {'status': 'vacuous', 'outcome': 'alias:solve raises %s' % Bd.errname(exn), 'ops': ops.n}
+    if not Bd.is_optimal(model):
+        return {'status': 'vacuous', 'outcome': 'alias:not optimal', 'ops': ops.n}
+    queries.update({'x.get()': lambda: x.get(), 'y.get()': lambda: y.get(), 's.get()': lambda: s_.get(),
+                    'x()': lambda: x(), 'y()': lambda: y(), '(2*x-c)()': lambda: (2 * x - C23)(),
+                    'x[0]()': lambda: x[0](), 'abs(y)()': lambda: abs(y)(), 'model.get()': lambda: model.get()})
+    if fe == 'roldr':
+        queries.pop('abs(y)()')
+    solx0 = np.array(model.solution.x, dtype=float, copy=True)
+    before = {}
+    for nm, fn in queries.items():
+        try:
+            before[nm] = _snapshot(fn())
+            ops()
+        except Exception:  # noqa
+            pass
+    if q1 not in before:
+        return {'status': 'unsupported', 'outcome': 'alias:%s raises' % q1, 'ops': ops.n}
+    # closed forms (pinned values) as a second reference
+    tol = 1e-6 if sol_mod is None else 1e-4
+    if closed is None:
+        exp = {'x.get()': [env.val['x'][p] for p in range(env.n)], 'y.get()': [env.val['y'][p] for p in range(env.n)],
+               's.get()': [env.val['s'][p] for p in range(env.n)]}
+        for nm, e in exp.items():
+            if nm in before:
+                f = cmp_scen(queries[nm](), e, env.labels, tol)
+                if f:
+                    return {'status': 'vacuous', 'outcome': 'alias:pinned optimum not reproduced (%s)' % solver, 'ops': ops.n}
+    else:
+        for nm, e in closed.items():
+            if nm in before and cmp_plain(queries[nm](), e, tol):
+                return {'status': 'vacuous', 'outcome': 'alias:pinned optimum not reproduced (%s)' % solver, 'ops': ops.n}
+    ret = queries[q1]()
+    arrs = _arrays_of(ret)
+    raw = model.solution.x
+    if any(isinstance(raw, np.ndarray) and np.shares_memory(a_, raw) for a_ in arrs):
+        return _viol(tag + '|returned array shares memory with model.solution.x', 'query %s (%s interface)' % (q1, solver), ops.n)
+    mutated = 0
+    for a_ in arrs:
+        if a_.flags.writeable and a_.size:
+            a_[...] = -777.0
+            mutated += 1
+    if not np.array_equal(np.asarray(model.solution.x, dtype=float), solx0):
+        return _viol(tag + '|model.solution.x changed by mutating the returned array', 'query %s (%s interface)' % (q1, solver),
+                     ops.n)
+    for nm, fn in queries.items():
+        if nm not in before:
+            continue
+        now = _snapshot(fn())
+        ops()
+        if not _same(now, before[nm]):
+            return _viol(tag + '|later query changed after in-place mutation of the returned array',
+                         'mutated result of %s, then %s: %s (before: %s)' % (q1, nm, _short(now), _short(before[nm])), ops.n)
+    return {'status': 'pass', 'outcome': 'alias:ok (%d arrays mutated)' % mutated, 'ops': ops.n, 'nontrivial': mutated > 0,
+            'states': 3, 'validated': len(before)}
 
 
 # ---------------------------------------------------------------- biaff
@@ -914,6 +1088,8 @@ def _run_evt(case):
     h0 = [[n - 1]] if n >= 2 else []
     specs = [{'name': 'w0', 'shape': (2,), 'hist': h0, 'ind': True}, {'name': 'x', 'shape': (2,), 'hist': hist, 'ind': True},
              {'name': 'q0', 'shape': ()}]
+    if q == 'stack.call':
+        specs.append({'name': 'sv', 'shape': (2,)})          # a static (here-and-now) vector to stack with
     rand = [{'name': 'z', 'shape': (2,)}] if q == 'biaff.call' else None
     objform = 'E' if (pin == 'obj' or q == 'objective') else 'wc'
     env = Bd.Env('dro%d' % n, specs, case['pal'], pin, case.get('sense', 'min'), lab=lab, rand=rand, positive=True,
@@ -965,6 +1141,40 @@ def _run_evt(case):
         T.item('(2*norm(x)+1)()', lambda: (2 * rso.norm(x) + 1)(), [2 * np.sqrt((r ** 2).sum()) + 1 for r in rx], labels=L)
         T.item('(-sumsqr(x)+q0)()', lambda: (-rso.sumsqr(x) + q0)(), [-(r ** 2).sum() + rq for r in rx], labels=L)
         T.item('exp(x/8)()', lambda: rso.exp(x * 0.125)(), [np.exp(r / 8) for r in rx], labels=L)
+    elif q == 'stack.call':
+        sv = env.vars['sv']
+        rs_ = env.raw('sv', 0)
+        cc = np.array([5.0, 6.0])
+        cat = np.concatenate
+        for nm, ev, rv_ in (('x', x, rx), ('w0', w0, rw)):
+            # static first / event-wise first / constant first, for every stacking function and the multi-array atoms
+            T.item('concat((sv,%s))()' % nm, lambda: rso.concat((sv, ev))(), [cat([rs_, r]) for r in rv_], labels=L)
+            T.item('concat((%s,sv))()' % nm, lambda: rso.concat((ev, sv))(), [cat([r, rs_]) for r in rv_], labels=L)
+            T.item('concat((c,%s))()' % nm, lambda: rso.concat((cc, ev))(), [cat([cc, r]) for r in rv_], labels=L)
+            T.item('concat((%s,c))()' % nm, lambda: rso.concat((ev, cc))(), [cat([r, cc]) for r in rv_], labels=L)
+            T.item('concat((q0v,%s,sv))()' % nm, lambda: rso.concat((q0 * np.ones(1), ev, sv))(),
+                   [cat([[rq], r, rs_]) for r in rv_], labels=L)
+            T.item('rstack(sv,%s)()' % nm, lambda: rso.rstack(sv.reshape((1, 2)), ev.reshape((1, 2)))(),
+                   [np.vstack([rs_, r]) for r in rv_], labels=L)
+            T.item('rstack(%s,sv)()' % nm, lambda: rso.rstack(ev.reshape((1, 2)), sv.reshape((1, 2)))(),
+                   [np.vstack([r, rs_]) for r in rv_], labels=L)
+            T.item('cstack(sv,%s)()' % nm, lambda: rso.cstack(sv.reshape((2, 1)), ev.reshape((2, 1)))(),
+                   [np.column_stack([rs_, r]) for r in rv_], labels=L)
+            T.item('cstack(%s,sv)()' % nm, lambda: rso.cstack(ev.reshape((2, 1)), sv.reshape((2, 1)))(),
+                   [np.column_stack([r, rs_]) for r in rv_], labels=L)
+            T.item('vec(q0,%s[1])()' % nm, lambda: rso.vec(q0, ev[1])(), [np.array([rq, r[1]]) for r in rv_], labels=L)
+            T.item('vec(%s[1],q0)()' % nm, lambda: rso.vec(ev[1], q0)(), [np.array([r[1], rq]) for r in rv_], labels=L)
+            T.item('vec(1.5,%s[0])()' % nm, lambda: rso.vec(1.5, ev[0])(), [np.array([1.5, r[0]]) for r in rv_], labels=L)
+            T.item('sumsqr(sv,%s)()' % nm, lambda: rso.sumsqr(sv, ev)(), [(rs_ ** 2).sum() + (r ** 2).sum() for r in rv_], labels=L)
+            T.item('sumsqr(%s,sv)()' % nm, lambda: rso.sumsqr(ev, sv)(), [(rs_ ** 2).sum() + (r ** 2).sum() for r in rv_], labels=L)
+            T.item('fnorm(sv,%s)()' % nm, lambda: rso.fnorm(sv, ev)(),
+                   [np.sqrt((rs_ ** 2).sum() + (r ** 2).sum()) for r in rv_], labels=L)
+            T.item('fnorm(%s,sv)()' % nm, lambda: rso.fnorm(ev, sv)(),
+                   [np.sqrt((rs_ ** 2).sum() + (r ** 2).sum()) for r in rv_], labels=L)
+            T.item('norm(concat((sv,%s)))()' % nm, lambda: rso.norm(rso.concat((sv, ev)))(),
+                   [np.sqrt((rs_ ** 2).sum() + (r ** 2).sum()) for r in rv_], labels=L)
+        T.item('concat((x,w0))()', lambda: rso.concat((x, w0))(), [cat([a_, b_]) for a_, b_ in zip(rx, rw)], labels=L)
+        T.item('concat((w0,x))()', lambda: rso.concat((w0, x))(), [cat([b_, a_]) for a_, b_ in zip(rx, rw)], labels=L)
     elif q == 'biaff.call':
         z = env.rand['z']
         T.item('(x*z)(z)', lambda: (x * z)(z.assign(ZV)), [r * ZV for r in rx], labels=L)
